@@ -113,6 +113,11 @@ func (s *sortedSet[ElementType, WeightType]) addSorted(element ElementType) {
 			} else {
 				s.mutex.Lock()
 				defer s.mutex.Unlock()
+
+				// ignore updates of an element that was removed (or removed and added again) in the meantime
+				if currentElement, exists := s.elements.Get(element); !exists || currentElement != listElement {
+					return
+				}
 			}
 
 			listElement.weight = newWeight
@@ -124,13 +129,20 @@ func (s *sortedSet[ElementType, WeightType]) addSorted(element ElementType) {
 
 // deleteSorted deletes the given element from the sortedElements slice.
 func (s *sortedSet[ElementType, WeightType]) deleteSorted(element ElementType) {
+	// unsubscribe from weight updates after the mutex was released: a weight update that is being delivered waits for
+	// the mutex while holding the execution lock that the unsubscribe call needs (deadlock)
+	if deletedElement := s.removeSorted(element); deletedElement != nil {
+		deletedElement.unsubscribeFromWeightUpdates()
+	}
+}
+
+// removeSorted removes the element from the sorted set and returns the removed element (nil if it did not exist).
+func (s *sortedSet[ElementType, WeightType]) removeSorted(element ElementType) *sortedSetElement[ElementType, WeightType] {
 	s.mutex.Lock()
 	defer s.mutex.Unlock()
 
-	if deletedElement, deleted := s.elements.DeleteAndReturn(element); deleted {
-		// unsubscribe from weight updates
-		deletedElement.unsubscribeFromWeightUpdates()
-
+	deletedElement, deleted := s.elements.DeleteAndReturn(element)
+	if deleted {
 		// shift all elements to the right of the deleted element one position to the left
 		for i := deletedElement.index; i < len(s.sortedElements)-1; i++ {
 			s.sortedElements[i] = s.sortedElements[i+1]
@@ -156,7 +168,11 @@ func (s *sortedSet[ElementType, WeightType]) deleteSorted(element ElementType) {
 				s.lightestElement.Set(*new(ElementType))
 			}
 		}
+
+		return deletedElement
 	}
+
+	return nil
 }
 
 // updatePosition updates the position of the given element in the sortedElements slice.
